@@ -9,7 +9,11 @@ package quic
 //   receive side (shape B): VerifC32_recv — STREAM/RESET_STREAM frames around the known final size, Read/CloseRead.
 //   receive side (shape I, full 62-bit width): VerifC32_bounds (checkStreamBounds), VerifC32_reset (handleReset).
 //
-// Sensitivity (sh mut.sh, see the final report): see the list at the end of this comment.
+// Sensitivity (sh mut.sh, all caught):
+//   stream.go appendOutFramesLocked: RESET_STREAM final size `s.outmaxsent` -> `s.out.end`          caught by VerifC32_send
+//   stream.go appendOutFramesLocked: `if s.outreset.isSet()` -> `... && !pto` (STREAM after reset)  caught by VerifC32_send
+//   stream.go checkStreamBounds: `fin && insize != -1 && end != insize` -> `end > insize`           caught by VerifC32_recv
+//     (and by VerifC32_bounds / VerifC32_reset, which state the verdict at full width)
 
 import (
 	"errors"
@@ -28,13 +32,14 @@ func init() {
 // sent / acked / lost / closed), then Reset or STOP_SENDING, then k2 further events, then one more full-size packet.
 func VerifC32_send() {
 	maxK1, k2 := 3, 2
-	if vfTier() > 0 {
-		maxK1, k2 = 4, 3
-	}
 	w := qsNewSender(4, 3, 5, 1)
 	w.prune = true
 	w.maxLen = 2
 	w.avails = []int{4, 20} // 4 = STREAM header (3) + 1 byte
+	if vfTier() > 0 {
+		w.avails = []int{4, 5, 20}
+		w.maxLen = 3
+	}
 	g := w.gs[0]
 	k1 := vfLen("k1", 0, maxK1)
 	for i := 0; i < k1; i++ {
@@ -101,17 +106,25 @@ type qsReadGhost struct {
 	readpos int64
 	viaFIN  bool // final size learned from a STREAM frame with FIN (as opposed to RESET_STREAM)
 	eof     bool // Read has returned io.EOF
+	// coverage flags
+	sawData, sawResetErr bool
 }
 
 func qsNewReadGhost(r *qsReceiver, content []byte) *qsReadGhost {
-	return &qsReadGhost{r: r, content: content, have: make([]bool, len(content)+4)}
+	return &qsReadGhost{r: r, content: content, have: make([]bool, len(content)+12)}
 }
 
 // data delivers the STREAM frame [off, off+n) of the peer's stream.
 func (g *qsReadGhost) data(off int64, n int, fin bool) {
+	g.frame(off, g.content[off:off+int64(n)], fin)
+}
+
+// frame delivers a STREAM frame carrying b at off.
+func (g *qsReadGhost) frame(off int64, b []byte, fin bool) {
 	r := g.r
+	n := len(b)
 	ignored := r.rclosed || r.reset
-	r.data(off, g.content[off:off+int64(n)], fin)
+	r.data(off, b, fin)
 	if r.dead || ignored {
 		return
 	}
@@ -138,7 +151,7 @@ func (g *qsReadGhost) read(n int) {
 		}
 		vfAssert(ok, "C19: Read returns the peer's bytes in order, no gap, no duplicate")
 		g.readpos += int64(got)
-		vfReach("read-data")
+		g.sawData = true
 	}
 	switch {
 	case err == nil:
@@ -147,13 +160,12 @@ func (g *qsReadGhost) read(n int) {
 		vfAssert(!r.reset, "C32: no EOF after the peer reset the stream")
 		vfAssert(g.viaFIN && r.final == g.readpos, "C19: EOF only after FIN and after all bytes were returned")
 		g.eof = true
-		vfReach("read-eof")
 	default:
 		vfAssert(got == 0, "a failing Read returns no data")
 		var code StreamErrorCode
 		if r.reset {
 			vfAssert(errors.As(err, &code) && uint64(code) == r.rcode, "C32: Read after a peer reset returns an error wrapping the reset code")
-			vfReach("read-reset-error")
+			g.sawResetErr = true
 		} else {
 			vfAssert(!errors.As(err, &code), "no reset error without a reset")
 			if !r.rclosed {
@@ -215,6 +227,18 @@ func VerifC32_recv() {
 	}
 	if !r.dead {
 		g.read(1)
+	}
+	if r.sawFinal {
+		vfReach("final-size-error")
+	}
+	if g.sawData {
+		vfReach("read-data")
+	}
+	if g.eof {
+		vfReach("read-eof")
+	}
+	if g.sawResetErr {
+		vfReach("read-reset-error")
 	}
 	vfReach("end")
 }
